@@ -12,7 +12,13 @@ ObsOrder(o) == [state |-> o.state, filled |-> o.filled, qfilled |-> o.qfilled, f
                 remaining |-> o.amount - o.filled, loans |-> o.loans]
 ObsLoan(s, l) == [open |-> l.open, sym |-> l.sym, amount |-> l.amount, paid |-> l.paid,
                   outInt |-> IF l.open /\ InterestConvertible(s, l) THEN InterestOf(s, l, s.clock) ELSE 0]
+\* Prices.get_bid_ask: last close -/+ half the spread, the half spread truncated to the quote precision;
+\* C.spreadN / C.spreadD is the spread in percent; <<0, 0>> when the pair has no price yet
+BidAsk(s, p) == IF s.last[p] = 0 THEN <<0, 0>>
+                ELSE LET half == ((s.last[p] * C.spreadN) \div (C.spreadD * 200 * C.pm)) * C.pm IN
+                     <<s.last[p] - half, s.last[p] + half>>
 Obs(s) == [clock |-> s.clock, bal |-> s.bal, hold |-> s.hold, bor |-> s.bor,
+           bidask |-> [p \in PairIdx |-> BidAsk(s, p)],
            orders |-> [i \in 1..Len(s.orders) |-> ObsOrder(s.orders[i])],
            loans |-> [j \in 1..Len(s.loans) |-> ObsLoan(s, s.loans[j])],
            openList |-> SelectSeq(s.openIdx, LAMBDA i : IsOpen(s.orders[i])),
